@@ -20,7 +20,7 @@ use easy_ml::interop::MatrixRefTensor;
 use easy_ml::matrices::views::{MatrixRange, MatrixRef, MatrixReverse, MatrixView, Reverse};
 use easy_ml::matrices::Matrix;
 use easy_ml::tensors::indexing::{TensorAccess, TensorTranspose};
-use easy_ml::tensors::views::{TensorChain, TensorRange, TensorRef, TensorRename, TensorReverse, TensorStack, TensorView};
+use easy_ml::tensors::views::{TensorChain, TensorMask, TensorRange, TensorRef, TensorRename, TensorReverse, TensorStack, TensorView};
 use easy_ml::tensors::Tensor;
 
 // ---------------------------------------------------------------------------------------------
@@ -302,6 +302,23 @@ impl<'a> CaseGen<'a> {
                 self.g.count("operand.view.rename");
                 GOp { name, shape: shape.to_vec(), forms: &T_BOXED, kind: "rename" }
             }
+            8 => {
+                // TensorMask of a larger tensor: a block of junk hidden inside every dimension
+                let mut src = shape.to_vec();
+                let mut masks = vec![];
+                for dd in src.iter_mut() {
+                    let hidden = self.g.rng.below(3);
+                    let start = self.g.rng.below(dd.1 + 1);
+                    masks.push(format!("{}:{}", start, hidden));
+                    dd.1 += hidden;
+                }
+                let s = self.tensor(&src);
+                let name = self.fresh("V");
+                let m = if masks.is_empty() { "-".to_string() } else { masks.join(",") };
+                self.g.op(format!("v {} {} mask {}", name, s.name, m));
+                self.g.count("operand.view.mask");
+                GOp { name, shape: shape.to_vec(), forms: &T_BOXED, kind: "mask" }
+            }
             6 | 7 if self.stackable(shape, kind) => {
                 let d = shape.len();
                 if kind == 6 {
@@ -500,8 +517,8 @@ fn gen_elementwise_case(g: &mut Gen, e: Ety, lens: &[usize]) {
     let mut c = CaseGen::new(g, e);
     let a = c.tensor(&shape);
     let b = c.tensor(&shape);
-    let k1 = c.g.rng.below(8);
-    let k2 = c.g.rng.below(8);
+    let k1 = c.g.rng.below(9);
+    let k2 = c.g.rng.below(9);
     let v1 = c.view_with_shape(&shape, k1);
     let v2 = c.view_with_shape(&shape, k2);
     for op in ["add", "sub"] {
@@ -578,7 +595,7 @@ fn gen_elementwise_reject_case(g: &mut Gen, e: Ety, lens: &[usize]) {
         }
     }
     for (why, s) in others {
-        let o = if c.g.rng.chance(1, 2) { c.tensor(&s) } else { let k = c.g.rng.below(8); c.view_with_shape(&s, k) };
+        let o = if c.g.rng.chance(1, 2) { c.tensor(&s) } else { let k = c.g.rng.below(9); c.view_with_shape(&s, k) };
         for op in ["add", "sub", "ewise"] {
             let (l, r) = if c.g.rng.chance(1, 2) { (&a, &o) } else { (&o, &a) };
             let lw = FORMS4[c.g.rng.below(4)];
@@ -612,7 +629,7 @@ fn gen_matmul_case(g: &mut Gen, e: Ety, m: usize, n: usize, l: usize) {
     let rs = vec![(intern(rn0), n), (intern(rn1), l)];
     let a = c.tensor(&ls);
     let b = c.tensor(&rs);
-    let (k1, k2) = (c.g.rng.below(8), c.g.rng.below(8));
+    let (k1, k2) = (c.g.rng.below(9), c.g.rng.below(9));
     let va = c.view_with_shape(&ls, k1);
     let vb = c.view_with_shape(&rs, k2);
     for lw in FORMS4 {
@@ -687,8 +704,8 @@ fn gen_matmul_reject_case(g: &mut Gen, e: Ety) {
     for (why, ls, rs) in table {
         let ls: Vec<(&'static str, usize)> = ls.iter().map(|d| (intern(d.0), d.1)).collect();
         let rs: Vec<(&'static str, usize)> = rs.iter().map(|d| (intern(d.0), d.1)).collect();
-        let lo = if c.g.rng.chance(1, 2) { c.tensor(&ls) } else { let k = c.g.rng.below(8); c.view_with_shape(&ls, k) };
-        let ro = if c.g.rng.chance(1, 2) { c.tensor(&rs) } else { let k = c.g.rng.below(8); c.view_with_shape(&rs, k) };
+        let lo = if c.g.rng.chance(1, 2) { c.tensor(&ls) } else { let k = c.g.rng.below(9); c.view_with_shape(&ls, k) };
+        let ro = if c.g.rng.chance(1, 2) { c.tensor(&rs) } else { let k = c.g.rng.below(9); c.view_with_shape(&rs, k) };
         let lw = FORMS4[c.g.rng.below(4)];
         let rw = FORMS4[c.g.rng.below(4)];
         let lf = c.pick_form(&lo, lw);
@@ -769,7 +786,7 @@ fn gen_scalar_case(g: &mut Gen, e: Ety, lens: &[usize]) {
     let shape: Vec<(&'static str, usize)> = names.iter().copied().zip(lens.iter().copied()).collect();
     let mut c = CaseGen::new(g, e);
     let a = c.tensor(&shape);
-    let k = c.g.rng.below(8);
+    let k = c.g.rng.below(9);
     let v = c.view_with_shape(&shape, k);
     for o in [&a, &v] {
         for op in ["sadd", "ssub", "smul", "sdiv"] {
@@ -798,7 +815,7 @@ fn gen_dot_case(g: &mut Gen, e: Ety, n: usize) {
     let shape = vec![(intern("s"), n)];
     let a = c.tensor(&shape);
     let b = c.tensor(&shape);
-    let (k1, k2) = (c.g.rng.below(8), c.g.rng.below(8));
+    let (k1, k2) = (c.g.rng.below(9), c.g.rng.below(9));
     let v1 = c.view_with_shape(&shape, k1);
     let v2 = c.view_with_shape(&shape, k2);
     for lw in ["ref-container", "ref-view"] {
@@ -1074,7 +1091,7 @@ fn gen_adversarial_names(g: &mut Gen) {
         let same = c.tensor(&[(ns[0], r), (ns[1], k2)]);
         let swapped = c.tensor(&[(ns[1], r), (ns[0], k2)]);
         let replaced = c.tensor(&[(ns[0], r), (ns[2], k2)]);
-        let kview = c.g.rng.below(8);
+        let kview = c.g.rng.below(9);
         let view = c.view_with_shape(&[(ns[0], r), (ns[1], k2)], kview);
         for o in [&same, &swapped, &replaced, &view] {
             let lw = FORMS4[c.g.rng.below(4)];
@@ -1160,6 +1177,74 @@ fn gen_degenerate_floats(g: &mut Gen) {
         g.op(format!("fdeg scalar {} {} {}", sop, lv.join(","), s));
         g.op(format!("fdeg neg {} {} {}", m, n, lv.join(",")));
         g.count("degenerate.f64.matrix");
+    }
+}
+
+/// Integer boundary values (MIN, MIN+1, -1, 0, 1, MAX-1, MAX) in every position of either operand,
+/// for i8 / i32 / i64 and a user-defined saturating type: the answer of every API must be what the
+/// element type's own operator gives cell by cell (a value, or the same kind of panic).  Decided
+/// inside the harness (`ibv` lines); the Lean model answers `agree`.
+fn gen_integer_boundaries(g: &mut Gen) {
+    for (ty, min, max) in [("i8", i8::MIN as i128, i8::MAX as i128), ("sat8", i8::MIN as i128, i8::MAX as i128),
+                           ("i32", i32::MIN as i128, i32::MAX as i128), ("i64", i64::MIN as i128, i64::MAX as i128)] {
+        g.op("@ i64".to_string());
+        let b: Vec<String> = [min, min + 1, -1, 0, 1, max - 1, max, 2, -3].iter().map(|v| v.to_string()).collect();
+        let small = |g: &mut Gen| ["0", "1", "-1", "2", "-2", "3"][g.rng.below(6)].to_string();
+        for x in &b {
+            g.op(format!("ibv {} neg 1 1 {}", ty, x));
+            for y in &b {
+                g.op(format!("ibv {} add 1 1 {} {}", ty, x, y));
+                g.op(format!("ibv {} sub 1 1 {} {}", ty, x, y));
+                g.op(format!("ibv {} dot {} {}", ty, x, y));
+                g.op(format!("ibv {} mul 1 1 1 {} {}", ty, x, y));
+                for op in ["sadd", "ssub", "smul", "sdiv"] {
+                    g.op(format!("ibv {} scalar {} {} {}", ty, op, x, y));
+                }
+                g.count_n(&format!("boundary.{}.length1", ty), 8);
+            }
+        }
+        g.op("@ i64".to_string());
+        // longer operands: a boundary value in every position of either operand
+        for n in [2usize, 3] {
+            for pl in 0..n {
+                for pr in 0..n {
+                    for x in &b {
+                        for y in &b {
+                            if g.rng.chance(if n == 2 { 1 } else { 3 }, 4) {
+                                continue;
+                            }
+                            let mut l: Vec<String> = (0..n).map(|_| small(g)).collect();
+                            let mut r: Vec<String> = (0..n).map(|_| small(g)).collect();
+                            l[pl] = x.clone();
+                            r[pr] = y.clone();
+                            let (l, r) = (l.join(","), r.join(","));
+                            match g.rng.below(5) {
+                                0 => g.op(format!("ibv {} add 1 {} {} {}", ty, n, l, r)),
+                                1 => g.op(format!("ibv {} sub {} 1 {} {}", ty, n, l, r)),
+                                2 => g.op(format!("ibv {} dot {} {}", ty, l, r)),
+                                3 => g.op(format!("ibv {} mul 1 {} 1 {} {}", ty, n, l, r)),
+                                _ => {
+                                    g.op(format!("ibv {} neg {} 1 {}", ty, n, l));
+                                    let op = ["sadd", "ssub", "smul", "sdiv"][g.rng.below(4)];
+                                    g.op(format!("ibv {} scalar {} {} {}", ty, op, l, y));
+                                }
+                            }
+                            g.count(&format!("boundary.{}.longer", ty));
+                        }
+                    }
+                }
+            }
+        }
+        // 2x2 products and sums full of boundary values
+        for _ in 0..(if g.thorough { 200 } else { 40 }) {
+            let pick = |g: &mut Gen| if g.rng.chance(1, 2) { b[g.rng.below(b.len())].clone() } else { small(g) };
+            let a: Vec<String> = (0..4).map(|_| pick(g)).collect();
+            let c: Vec<String> = (0..4).map(|_| pick(g)).collect();
+            g.op(format!("ibv {} mul 2 2 2 {} {}", ty, a.join(","), c.join(",")));
+            g.op(format!("ibv {} sub 2 2 {} {}", ty, a.join(","), c.join(",")));
+            g.op(format!("ibv {} add 2 2 {} {}", ty, a.join(","), c.join(",")));
+            g.count(&format!("boundary.{}.matrix", ty));
+        }
     }
 }
 
@@ -1280,6 +1365,7 @@ pub fn gen(g: &mut Gen) {
     gen_stack_chain_cases(g);
     gen_adversarial_names(g);
     gen_degenerate_floats(g);
+    gen_integer_boundaries(g);
     gen_large_cases(g);
     gen_euclidean_length(g);
     // catalogue of operator impls found in the sources (so that a new form cannot be missed)
@@ -1346,6 +1432,7 @@ enum Ad {
     Reverse(Vec<&'static str>),
     Rename(Vec<&'static str>),
     Range(Vec<(usize, usize)>),
+    Mask(Vec<(usize, usize)>),
 }
 
 #[derive(Clone)]
@@ -1621,6 +1708,11 @@ macro_rules! runner_for {
                         let ranges: [Option<(usize, usize)>; D] = std::array::from_fn(|i| Some(r[i]));
                         Box::new(TensorRange::from_all(cur, ranges).expect("range"))
                     }
+                    Ad::Mask(r) => {
+                        assert_eq!(r.len(), D);
+                        let masks: [Option<(usize, usize)>; D] = std::array::from_fn(|i| Some(r[i]));
+                        Box::new(TensorMask::from_all(cur, masks).expect("mask"))
+                    }
                 }
             }
 
@@ -1842,6 +1934,7 @@ macro_rules! runner_for {
                     "reverse" => Ad::Reverse(parse_names(arg)),
                     "rename" => Ad::Rename(parse_names(arg)),
                     "range" => Ad::Range(parse_pairs(arg)),
+                    "mask" => Ad::Mask(parse_pairs(arg)),
                     _ => return Err("bad-op".into()),
                 };
                 let mut o = src.clone();
@@ -2228,6 +2321,169 @@ fn fdeg(toks: &[&str]) -> String {
     if bad.is_empty() { "agree".into() } else { format!("DISAGREE {}", bad.join(" ; ")) }
 }
 
+// ---------------------------------------------------------------------------------------------
+// integer boundary values: implementation (tensor, tensor view, matrix, matrix view) versus the
+// plain operator of the element type applied cell by cell
+// ---------------------------------------------------------------------------------------------
+
+/// A small user-defined element type with saturating arithmetic over `i8`.
+#[derive(Clone, Copy, Debug, PartialEq, PartialOrd)]
+pub struct Sat8(pub i8);
+
+macro_rules! sat8_forms {
+    ($Trait:ident, $method:ident, $f:expr) => {
+        impl std::ops::$Trait<Sat8> for Sat8 { type Output = Sat8; fn $method(self, r: Sat8) -> Sat8 { Sat8($f(self.0, r.0)) } }
+        impl<'a> std::ops::$Trait<&'a Sat8> for Sat8 { type Output = Sat8; fn $method(self, r: &Sat8) -> Sat8 { Sat8($f(self.0, r.0)) } }
+        impl<'a> std::ops::$Trait<Sat8> for &'a Sat8 { type Output = Sat8; fn $method(self, r: Sat8) -> Sat8 { Sat8($f(self.0, r.0)) } }
+        impl<'a, 'b> std::ops::$Trait<&'b Sat8> for &'a Sat8 { type Output = Sat8; fn $method(self, r: &Sat8) -> Sat8 { Sat8($f(self.0, r.0)) } }
+    };
+}
+sat8_forms!(Add, add, |a: i8, b: i8| a.saturating_add(b));
+sat8_forms!(Sub, sub, |a: i8, b: i8| a.saturating_sub(b));
+sat8_forms!(Mul, mul, |a: i8, b: i8| a.saturating_mul(b));
+sat8_forms!(Div, div, |a: i8, b: i8| if b == 0 { 0 } else { a.saturating_div(b) });
+impl std::ops::Neg for Sat8 { type Output = Sat8; fn neg(self) -> Sat8 { Sat8(self.0.saturating_neg()) } }
+impl<'a> std::ops::Neg for &'a Sat8 { type Output = Sat8; fn neg(self) -> Sat8 { Sat8(self.0.saturating_neg()) } }
+impl easy_ml::numeric::ZeroOne for Sat8 { fn zero() -> Sat8 { Sat8(0) } fn one() -> Sat8 { Sat8(1) } }
+impl easy_ml::numeric::FromUsize for Sat8 { fn from_usize(n: usize) -> Option<Sat8> { i8::try_from(n).ok().map(Sat8) } }
+impl std::iter::Sum for Sat8 { fn sum<I: Iterator<Item = Sat8>>(it: I) -> Sat8 { it.fold(Sat8(0), |a, b| a + b) } }
+impl<'a> std::iter::Sum<&'a Sat8> for Sat8 { fn sum<I: Iterator<Item = &'a Sat8>>(it: I) -> Sat8 { it.fold(Sat8(0), |a, b| a + b) } }
+
+pub trait IntLike: Clone + PartialEq + std::fmt::Debug + 'static {
+    fn parse_int(s: &str) -> Self;
+}
+impl IntLike for i8 { fn parse_int(s: &str) -> i8 { s.parse().expect("i8") } }
+impl IntLike for i32 { fn parse_int(s: &str) -> i32 { s.parse().expect("i32") } }
+impl IntLike for i64 { fn parse_int(s: &str) -> i64 { s.parse().expect("i64") } }
+impl IntLike for Sat8 { fn parse_int(s: &str) -> Sat8 { Sat8(s.parse().expect("i8")) } }
+
+fn ibv_verdict<T: PartialEq + std::fmt::Debug>(
+    name: &str,
+    got: Result<Vec<T>, PanicKind>,
+    want: &Result<Vec<T>, PanicKind>,
+    out: &mut Vec<String>,
+) {
+    let same = match (&got, want) {
+        (Ok(a), Ok(b)) => a == b,
+        (Err(a), Err(b)) => a == b,
+        _ => false,
+    };
+    if !same {
+        let show = |r: &Result<Vec<T>, PanicKind>| match r {
+            Ok(v) => format!("{:?}", v),
+            Err(k) => panic_str(*k),
+        };
+        out.push(format!("{}={} want {}", name, show(&got), show(want)));
+    }
+}
+
+macro_rules! ibv_for {
+    ($fname:ident, $T:ty) => {
+        fn $fname(toks: &[&str]) -> String {
+            type T = $T;
+            let parse = |s: &str| -> Vec<T> { split_comma(s).iter().map(|x| <T as IntLike>::parse_int(x)).collect() };
+            let mut bad: Vec<String> = vec![];
+            // the expected answer: the element type's own operator, cell by cell, in the order the
+            // documentation gives; the first cell that panics decides
+            fn cells(n: usize, f: impl Fn(usize) -> T) -> Result<Vec<T>, PanicKind> {
+                let mut out = vec![];
+                for i in 0..n {
+                    out.push(catch(|| f(i))?);
+                }
+                Ok(out)
+            }
+            fn dot(a: &[T], b: &[T]) -> T {
+                let mut acc = a[0].clone() * b[0].clone();
+                for k in 1..a.len() {
+                    let p = a[k].clone() * b[k].clone();
+                    acc = acc + p;
+                }
+                acc
+            }
+            match toks {
+                [op @ ("add" | "sub"), rows, cols, lv, rv] => {
+                    let (rows, cols): (usize, usize) = (rows.parse().unwrap(), cols.parse().unwrap());
+                    let (a, b) = (parse(lv), parse(rv));
+                    let add = *op == "add";
+                    let want = cells(a.len(), |i| if add { a[i].clone() + b[i].clone() } else { a[i].clone() - b[i].clone() });
+                    let (ta, tb) = (Tensor::from([("r", rows), ("c", cols)], a.clone()), Tensor::from([("r", rows), ("c", cols)], b.clone()));
+                    ibv_verdict("tensor", catch(|| if add { &ta + &tb } else { &ta - &tb }.iter().collect()), &want, &mut bad);
+                    ibv_verdict("tensor.owned", catch(|| if add { ta.clone() + tb.clone() } else { ta.clone() - tb.clone() }.iter().collect()), &want, &mut bad);
+                    ibv_verdict("view", catch(|| if add { TensorView::from(&ta) + TensorView::from(&tb) } else { TensorView::from(&ta) - TensorView::from(&tb) }.iter().collect()), &want, &mut bad);
+                    ibv_verdict("view.tensor", catch(|| if add { &TensorView::from(&ta) + &tb } else { &TensorView::from(&ta) - &tb }.iter().collect()), &want, &mut bad);
+                    let (ma, mb) = (Matrix::from_flat_row_major((rows, cols), a.clone()), Matrix::from_flat_row_major((rows, cols), b.clone()));
+                    ibv_verdict("matrix", catch(|| if add { &ma + &mb } else { &ma - &mb }.row_major_iter().collect()), &want, &mut bad);
+                    ibv_verdict("matrixview", catch(|| if add { MatrixView::from(&ma) + MatrixView::from(&mb) } else { MatrixView::from(&ma) - MatrixView::from(&mb) }.row_major_iter().collect()), &want, &mut bad);
+                    ibv_verdict("matrix.view", catch(|| if add { &ma + MatrixView::from(&mb) } else { &ma - MatrixView::from(&mb) }.row_major_iter().collect()), &want, &mut bad);
+                }
+                ["neg", rows, cols, vals] => {
+                    let (rows, cols): (usize, usize) = (rows.parse().unwrap(), cols.parse().unwrap());
+                    let a = parse(vals);
+                    let want = cells(a.len(), |i| -a[i].clone());
+                    let m = Matrix::from_flat_row_major((rows, cols), a.clone());
+                    ibv_verdict("matrix", catch(|| (-&m).row_major_iter().collect()), &want, &mut bad);
+                    ibv_verdict("matrixview", catch(|| (-MatrixView::from(&m)).row_major_iter().collect()), &want, &mut bad);
+                }
+                ["scalar", op, vals, sv] => {
+                    let a = parse(vals);
+                    let s = <T as IntLike>::parse_int(sv);
+                    let want = cells(a.len(), |i| match *op { "sadd" => a[i].clone() + s.clone(), "ssub" => a[i].clone() - s.clone(), "smul" => a[i].clone() * s.clone(), _ => a[i].clone() / s.clone() });
+                    let n = a.len();
+                    let t = Tensor::from([("s", n)], a.clone());
+                    let m = Matrix::from_flat_row_major((1, n), a.clone());
+                    macro_rules! apply { ($x:expr) => { match *op { "sadd" => $x + s.clone(), "ssub" => $x - s.clone(), "smul" => $x * s.clone(), _ => $x / s.clone() } }; }
+                    ibv_verdict("tensor", catch(|| apply!(&t).iter().collect()), &want, &mut bad);
+                    ibv_verdict("view", catch(|| apply!(TensorView::from(&t)).iter().collect()), &want, &mut bad);
+                    ibv_verdict("matrix", catch(|| apply!(&m).row_major_iter().collect()), &want, &mut bad);
+                    ibv_verdict("matrixview", catch(|| apply!(MatrixView::from(&m)).row_major_iter().collect()), &want, &mut bad);
+                }
+                ["dot", lv, rv] => {
+                    let (a, b) = (parse(lv), parse(rv));
+                    let n = a.len();
+                    let want = catch(|| vec![dot(&a, &b)]);
+                    let (tl, tr) = (Tensor::from([("s", n)], a.clone()), Tensor::from([("s", n)], b.clone()));
+                    ibv_verdict("tensor.scalar_product", catch(|| vec![tl.scalar_product(&tr)]), &want, &mut bad);
+                    ibv_verdict("view.scalar_product", catch(|| vec![TensorView::from(&tl).scalar_product(TensorView::from(&tr))]), &want, &mut bad);
+                    let (ml, mr) = (Matrix::from_flat_row_major((1, n), a.clone()), Matrix::from_flat_row_major((n, 1), b.clone()));
+                    ibv_verdict("matrix.1xN*Nx1", catch(|| (&ml * &mr).row_major_iter().collect()), &want, &mut bad);
+                }
+                ["mul", m, n, l, lv, rv] => {
+                    let (m, n, l): (usize, usize, usize) = (m.parse().unwrap(), n.parse().unwrap(), l.parse().unwrap());
+                    let (a, b) = (parse(lv), parse(rv));
+                    let want = cells(m * l, |ij| {
+                        let (i, j) = (ij / l, ij % l);
+                        let row: Vec<T> = (0..n).map(|k| a[i * n + k].clone()).collect();
+                        let col: Vec<T> = (0..n).map(|k| b[k * l + j].clone()).collect();
+                        dot(&row, &col)
+                    });
+                    let (ta, tb) = (Tensor::from([("r", m), ("c", n)], a.clone()), Tensor::from([("x", n), ("y", l)], b.clone()));
+                    ibv_verdict("tensor.mul", catch(|| (&ta * &tb).iter().collect()), &want, &mut bad);
+                    ibv_verdict("view.mul", catch(|| (TensorView::from(&ta) * TensorView::from(&tb)).iter().collect()), &want, &mut bad);
+                    let (ma, mb) = (Matrix::from_flat_row_major((m, n), a.clone()), Matrix::from_flat_row_major((n, l), b.clone()));
+                    ibv_verdict("matrix.mul", catch(|| (&ma * &mb).row_major_iter().collect()), &want, &mut bad);
+                    ibv_verdict("matrixview.mul", catch(|| (MatrixView::from(&ma) * MatrixView::from(&mb)).row_major_iter().collect()), &want, &mut bad);
+                }
+                _ => return "bad-op".into(),
+            }
+            if bad.is_empty() { "agree".into() } else { format!("DISAGREE {}", bad.join(" ; ")) }
+        }
+    };
+}
+ibv_for!(ibv_i8, i8);
+ibv_for!(ibv_i32, i32);
+ibv_for!(ibv_i64, i64);
+ibv_for!(ibv_sat8, Sat8);
+
+fn ibv(toks: &[&str]) -> String {
+    match toks {
+        ["i8", rest @ ..] => ibv_i8(rest),
+        ["i32", rest @ ..] => ibv_i32(rest),
+        ["i64", rest @ ..] => ibv_i64(rest),
+        ["sat8", rest @ ..] => ibv_sat8(rest),
+        _ => "bad-op".into(),
+    }
+}
+
 enum Case {
     None,
     Fp(run_fp::Env),
@@ -2248,6 +2504,7 @@ impl Runner {
     pub fn step(&mut self, toks: &[&str]) -> String {
         match toks {
             ["fdeg", rest @ ..] => fdeg(rest),
+            ["ibv", rest @ ..] => ibv(rest),
             ["@", "fp"] => { self.case = Case::Fp(Default::default()); "ok".into() }
             ["@", "rat"] => { self.case = Case::Rat(Default::default()); "ok".into() }
             ["@", "i64"] => { self.case = Case::I64(Default::default()); "ok".into() }
